@@ -189,3 +189,169 @@ for _nd in range(4, 17):
 for _nd in (4, 5, 6, 7, 9, 16):
     for _nvd in (1, 3, 6):
         C17_WORKLOADS_THOROUGH.append(_mk_v(_nd, 2, _nvd))
+
+
+# ------------------------------------------------------------------ C16 workloads: (name, setup|None, body)
+def w_h_create(L, d, rec):
+    fid = rec("Hopen", L.Hopen(_p(d), DFACC_CREATE, 4), FAIL)
+    if fid == FAIL:
+        return
+    for i in range(6):
+        data = bytes((i * 31 + j) % 256 for j in range(5 + i))
+        rec("Hputelement", L.Hputelement(fid, 2000, 100 + i, data, len(data)), FAIL)
+    rec("Hclose", L.Hclose(fid), FAIL)
+
+
+def w_h_linked_rw(L, d, rec):
+    fid = rec("Hopen", L.Hopen(_p(d), DFACC_CREATE, 5), FAIL)
+    if fid == FAIL:
+        return
+    aid = rec("HLcreate", L.HLcreate(fid, 2001, 1, 8, 2), FAIL)
+    if aid != FAIL:
+        for i in range(5):
+            rec("Hwrite", L.Hwrite(aid, 7, bytes([i + 1] * 7)), FAIL)
+        rec("Hseek", L.Hseek(aid, 3, 0), FAIL)
+        b = CBuf(20)
+        r = rec("Hread", L.Hread(aid, 20, b.ptr), FAIL)
+        rec.data("Hread.data", b.raw(max(r, 0)))
+        b.free()
+        rec("Hendaccess", L.Hendaccess(aid), FAIL)
+    rec("Hclose", L.Hclose(fid), FAIL)
+
+
+def w_h_extend(L, d, rec):
+    sess_h_elements(L, d, rec, 7, None)
+
+
+def w_vdata_vgroup(L, d, rec):
+    fid = rec("Hopen", L.Hopen(_p(d), DFACC_CREATE, 0), FAIL)
+    if fid == FAIL:
+        return
+    L.Hclose(fid) if False else None
+    rec("Hclose0", L.Hclose(fid), FAIL)
+    sess_vdata_vgroup(L, d, rec, None, 2)
+
+
+def w_vdata_read(L, d, rec):
+    fid = rec("Hopen", L.Hopen(_p(d), DFACC_READ, 0), FAIL)
+    if fid == FAIL:
+        return
+    rec("Vstart", L.Vinitialize(fid), FAIL)
+    ref = L.VSfind(fid, b"oldvd")
+    vs = rec("VSattach", L.VSattach(fid, ref, b"r"), FAIL)
+    if vs != FAIL:
+        rec("VSsetfields", L.VSsetfields(vs, b"a,b"), FAIL)
+        b = CBuf(20)
+        r = rec("VSread", L.VSread(vs, b.ptr, 5, FULL_INTERLACE), FAIL)
+        rec.data("VSread.data", b.raw(20) if r == 5 else b"")
+        b.free()
+        rec("VSdetach", L.VSdetach(vs), FAIL)
+    rec("Vend", L.Vfinish(fid), FAIL)
+    rec("Hclose", L.Hclose(fid), FAIL)
+
+
+def w_sd_create(L, d, rec):
+    sd = rec("SDstart", L.SDstart(_p(d), DFACC_CREATE), FAIL)
+    if sd == FAIL:
+        return
+    s = rec("SDcreate", L.SDcreate(sd, b"t", DFNT["int32"], 2, i32arr([3, 4])), FAIL)
+    if s != FAIL:
+        rec("SDwritedata", L.SDwritedata(s, i32arr([0, 0]), None, i32arr([3, 4]), pack(24, list(range(12)))), FAIL)
+        rec("SDsetattr", L.SDsetattr(s, b"units", DFNT["char8"], 3, b"m/s"), FAIL)
+        rec("SDendaccess", L.SDendaccess(s), FAIL)
+    rec("SDend", L.SDend(sd), FAIL)
+
+
+def w_sd_read(L, d, rec):
+    sd = rec("SDstart", L.SDstart(_p(d), DFACC_READ), FAIL)
+    if sd == FAIL:
+        return
+    idx = rec("SDnametoindex", L.SDnametoindex(sd, b"oldsds"), FAIL)
+    s = rec("SDselect", L.SDselect(sd, max(idx, 0)), FAIL)
+    if s != FAIL:
+        b = CBuf(48)
+        r = rec("SDreaddata", L.SDreaddata(s, i32arr([0, 0]), None, i32arr([3, 4]), b.ptr), FAIL)
+        rec.data("SDreaddata.data", b.raw(48) if r != FAIL else b"")
+        b.free()
+        rec("SDendaccess", L.SDendaccess(s), FAIL)
+    rec("SDend", L.SDend(sd), FAIL)
+
+
+def w_sd_unlimited_append(L, d, rec):
+    sd = rec("SDstart", L.SDstart(_p(d), DFACC_CREATE), FAIL)
+    if sd == FAIL:
+        return
+    s = rec("SDcreate", L.SDcreate(sd, b"u", DFNT["int16"], 2, i32arr([SD_UNLIMITED, 3])), FAIL)
+    if s != FAIL:
+        rec("SDwritedata", L.SDwritedata(s, i32arr([0, 0]), None, i32arr([2, 3]), pack(22, list(range(6)))), FAIL)
+        rec("SDwritedata", L.SDwritedata(s, i32arr([4, 0]), None, i32arr([1, 3]), pack(22, [7, 8, 9])), FAIL)
+        rec("SDendaccess", L.SDendaccess(s), FAIL)
+    rec("SDend", L.SDend(sd), FAIL)
+
+
+def w_sd_chunked_deflate(L, d, rec):
+    sd = rec("SDstart", L.SDstart(_p(d), DFACC_CREATE), FAIL)
+    if sd == FAIL:
+        return
+    s = rec("SDcreate", L.SDcreate(sd, b"c", DFNT["int32"], 2, i32arr([5, 4])), FAIL)
+    if s != FAIL:
+        rec("SDsetchunk", L.SDsetchunk(s, chunkdef([2, 3], COMP_CODE_DEFLATE, 6), HDF_COMP), FAIL)
+        rec("SDsetchunkcache", L.SDsetchunkcache(s, 2, 0), FAIL)
+        rec("SDwritedata", L.SDwritedata(s, i32arr([0, 0]), None, i32arr([5, 4]), pack(24, list(range(20)))), FAIL)
+        rec("SDendaccess", L.SDendaccess(s), FAIL)
+    rec("SDend", L.SDend(sd), FAIL)
+
+
+def w_gr_create(L, d, rec):
+    fid = rec("Hopen", L.Hopen(_p(d), DFACC_CREATE, 0), FAIL)
+    if fid == FAIL:
+        return
+    gr = rec("GRstart", L.GRstart(fid), FAIL)
+    if gr != FAIL:
+        ri = rec("GRcreate", L.GRcreate(gr, b"img", 3, DFNT["uint8"], MFGR_INTERLACE_PIXEL, i32arr([4, 3])), FAIL)
+        if ri != FAIL:
+            rec("GRwriteimage", L.GRwriteimage(ri, i32arr([0, 0]), None, i32arr([4, 3]), bytes(range(36))), FAIL)
+            pal = rec("GRgetlutid", L.GRgetlutid(ri, 0), FAIL)
+            if pal != FAIL:
+                rec("GRwritelut", L.GRwritelut(pal, 3, DFNT["uint8"], 0, 256, bytes(range(256)) * 3), FAIL)
+            rec("GRendaccess", L.GRendaccess(ri), FAIL)
+        rec("GRend", L.GRend(gr), FAIL)
+    rec("Hclose", L.Hclose(fid), FAIL)
+
+
+def w_an_create(L, d, rec):
+    fid = rec("Hopen", L.Hopen(_p(d), DFACC_CREATE, 0), FAIL)
+    if fid == FAIL:
+        return
+    rec("Hputelement", L.Hputelement(fid, 1000, 2, b"xyz", 3), FAIL)
+    rec("Hclose0", L.Hclose(fid), FAIL)
+    sess_annotations(L, d, rec, None)
+
+
+def w_h_external(L, d, rec):
+    fid = rec("Hopen", L.Hopen(_p(d), DFACC_CREATE, 0), FAIL)
+    if fid == FAIL:
+        return
+    aid = rec("HXcreate", L.HXcreate(fid, 2002, 1, b"ext.dat", 0, 0), FAIL)
+    if aid != FAIL:
+        rec("Hwrite", L.Hwrite(aid, 9, b"123456789"), FAIL)
+        rec("Hendaccess", L.Hendaccess(aid), FAIL)
+    rec("Hclose", L.Hclose(fid), FAIL)
+
+
+C16_WORKLOADS = [
+    ("h_create", None, w_h_create, True),
+    ("h_linked_rw", None, w_h_linked_rw, True),
+    ("h_extend", lambda L, d: prep_h(L, d, 4, 3), w_h_extend, True),
+    ("vdata_vgroup", None, w_vdata_vgroup, True),
+    ("sd_create", None, w_sd_create, True),
+    ("sd_read", lambda L, d: prep_mixed(L, d, 16, 3), w_sd_read, True),
+    ("vdata_read", lambda L, d: prep_mixed(L, d, 16, 3), w_vdata_read, False),
+    ("sd_unlimited_append", None, w_sd_unlimited_append, False),
+    ("sd_chunked_deflate", None, w_sd_chunked_deflate, False),
+    ("gr_create", None, w_gr_create, False),
+    ("an_create", None, w_an_create, False),
+    ("h_external", None, w_h_external, False),
+    ("new_sds_in_mixed", lambda L, d: prep_mixed(L, d, 16, 3), lambda L, d, rec: sess_new_sds(L, d, rec, None), False),
+    ("new_image_in_mixed", lambda L, d: prep_mixed(L, d, 16, 3), lambda L, d, rec: sess_new_image(L, d, rec, None), False),
+]
